@@ -158,8 +158,8 @@ func ruleR5(c *Ctx, prop string) {
 			"C13": {"M1"},
 			"C15": {"M5"},
 			"C18": {"M4", "M9", "M10", "M11"},
-			"C02": {"M2", "M13"},
-			"C17": {"M2", "M13"},
+			"C02": {"M2", "M4", "M13"},
+			"C17": {"M2", "M4", "M13"},
 		}
 		for _, id := range ids {
 			for _, w := range sets[prop] {
